@@ -256,11 +256,11 @@ def run(chk):
     big = [b for b in behs if len(b['nodes']) > 1]
     rnd.shuffle(big)
     big.sort(key=lambda b: not collides(b) or len(b['files']) < 2)       # name collisions first
-    nbig = 3500 if tier == 'quick' else 60000
+    nbig = 3500 if tier == 'quick' else 20000
     jobs = []
     for k, b in enumerate(small + big[:nbig]):
         jobs.append((b, 'article', 'HTML5', k % 16 == 0, None))
-    nx = 500 if tier == 'quick' else 6000
+    nx = 500 if tier == 'quick' else 2000
     extra = big[nbig:nbig + nx] or big[:nx]
     for k, b in enumerate(extra):
         jobs.append((b, 'book', 'HTML5', False, None))
